@@ -16,6 +16,7 @@ import env
 import pipeline
 import resp
 import c03_docs as D
+import c03_mint
 from c03_docs import E
 from pipeline import A, R
 from core import Exn, call, cstr, cbool, copt, clist
@@ -24,21 +25,47 @@ from saml2_tophat import md, saml, samlp, sigver, class_name
 from saml2_tophat.config import IdPConfig, SPConfig
 
 CLAIM = {
-    "text": "Coq theorems (Props/C03.v) over (1) the model of MetaData.certs and the certificate selection + per-certificate loop of _check_signature, for every federation, issuer, embedded certificate list and signing key: with only_use_keys_in_metadata on, a successful check implies the signer's key is a certificate of a key descriptor of the ISSUER's own entity whose use is signing or absent (exact characterisation of certs(): never an encryption-only descriptor, whatever the descriptor order; never another entity's); unknown issuer / no signing key => MissingKey even with an embedded certificate; foreign key => SignatureError; with the setting off the embedded certificates are used iff metadata yields none. The model follows /repo + proposed_fix/C03-1 (MetaData.certs skips a key descriptor without X509Data); the code before it - KeyError for the whole entity, swallowed as 'no metadata certificates' - is refuted by C03_embedded_only_as_fallback_before_fix_refuted (an embedded foreign key trusted although metadata holds a signing key) and shown only needlessly strict under the default setting (C03_before_fix_default_setting); (2) the model of the issuer-selection step of _check_signature (element's own Issuer, stripped, first; the issuer= argument only when the element names nobody) and of every call site with the argument it passes (correctly_signed_response / correctly_signed_message / _assertion: none; decrypt_assertions: none for response-level EncryptedAssertions, the enclosing assertion's Issuer for encrypted advice; direct callers: anything): the candidate certificates are those of the signed element's OWN Issuer whenever it has one, at every site and for every argument (C03_own_issuer_decides, C03_call_sites, C03_accepted_under_own_issuer); for a whole response document run through the entry point with its two retries (C03_document, induction over the assertion lists): every signed element of an accepted document - Response, plain assertion, assertion inside EncryptedAssertion, assertion inside encrypted Advice - was signed with a key trusted for ITS OWN issuer, an advice assertion without Issuer being the only element judged under another element's name; (3) histories (C03_history_*, induction over operation sequences on any set of long-lived clients, any starting state): the n-th outcome equals the outcome of that operation on that client alone. The loop is the C20 model instantiated with a tool that reports success iff the certificate holds the signer's key. Tie: generated federations (17 key-descriptor layouts, 6 of them with KeyName / KeyValue-only descriptors) x issuer x key x embedded x setting; places x outer issuer x own issuer x key x embedded x setting; direct calls x own x argument; seven message kinds; seeded operation sequences over five clients with conflicting metadata - each on implementation (real RSA through the stand-in, real ciphertexts) and model.",
-    "note": "Trusted: Coq kernel + vm_compute; hand-written models tied to the code by correspondence (exhaustive over the listed finite products in the thorough tier; the quick tier drops the listed slices); stand-in xmlsec1 verifies with the certificate file pysaml2 hands it; certificates are identified with their keys (cert n holds key n); certificate-chain validation (cert_handler) is off as in the default configuration; want_assertions_or_response_signed off (C02/C04); plain (unencrypted) assertions inside an Advice are not verified by the library at all and are outside the statement.",
+    "text": "Coq theorems (Props/C03.v) over (1) the model of MetaData.certs and the certificate selection + per-certificate loop of _check_signature, for every federation, issuer, embedded certificate list and signing key: with only_use_keys_in_metadata on, a successful check implies the signer's key is a certificate of a key descriptor of the ISSUER's own entity whose use is signing or absent (exact characterisation of certs(): never an encryption-only descriptor, whatever the descriptor order; never another entity's); unknown issuer / no signing key => MissingKey even with an embedded certificate; foreign key => SignatureError; with the setting off the embedded certificates are used iff metadata yields none. The model follows /repo + proposed_fix/C03-1 (MetaData.certs skips a key descriptor without X509Data); the code before it - KeyError for the whole entity, swallowed as 'no metadata certificates' - is refuted by C03_embedded_only_as_fallback_before_fix_refuted (an embedded foreign key trusted although metadata holds a signing key) and shown only needlessly strict under the default setting (C03_before_fix_default_setting); (2) the model of the issuer-selection step of _check_signature (element's own Issuer, stripped, first; the issuer= argument only when the element names nobody) and of every call site with the argument it passes (correctly_signed_response / correctly_signed_message / _assertion: none; decrypt_assertions: none for response-level EncryptedAssertions, the enclosing assertion's Issuer for encrypted advice; direct callers: anything): the candidate certificates are those of the signed element's OWN Issuer whenever it has one, at every site and for every argument (C03_own_issuer_decides, C03_call_sites, C03_accepted_under_own_issuer); for a whole response document run through the entry point with its two retries (C03_document, induction over the assertion lists): every signed element of an accepted document - Response, plain assertion, assertion inside EncryptedAssertion, assertion inside encrypted Advice - was signed with a key trusted for ITS OWN issuer, an advice assertion without Issuer being the only element judged under another element's name; (3) histories (C03_history_*, induction over operation sequences on any set of long-lived clients, any starting state): the n-th outcome equals the outcome of that operation on that client alone. (4) certificate validity dates (Model/CertValidity.v: a certificate is (key, validity window Valid | Expired | NotYetValid), the window carried through certs() and the selection and read by nothing): C03_validity_erased - the model with dates gives on every input the verdict of the model without them on the federation with the dates erased, so every theorem above holds for federations with expired / not-yet-valid certificates; C03_validity_ignored - re-dating every metadata and KeyInfo certificate changes neither the verdict nor the fallback decision; C03_fallback_declared_list_only - KeyInfo is consulted iff the setting is off and the DECLARED signing list is empty; C03_declared_certificate_blocks_fallback - any certificate, whatever its window, in a signing / use-less key descriptor of the issuer's entity means KeyInfo is not consulted under either setting; C03_validity_only_issuer_keys, C03_declared_key_accepted_whatever_window. The loop is the C20 model instantiated with a tool that reports success iff the certificate holds the signer's key. Tie: generated federations (29 key-descriptor layouts, 6 of them with KeyName / KeyValue-only descriptors, 12 with expired / not-yet-valid certificates of the same keys - only expired, only not-yet-valid, both, expired + renewed, expired foreign + valid own, valid encryption-only + not-yet-valid foreign signing - minted by harness/c03_mint.py, their windows re-checked against the real and the harness clock on every run; embedded certificates always currently valid) x issuer x key x embedded x setting on vcheck_signature / vmd_certs (certificates told apart by window); validity federations also among the document, direct-call, message and history clients (compared with Model/IssuerSel.v on the erased federation, which C03_validity_erased justifies); places x outer issuer x own issuer x key x embedded x setting; direct calls x own x argument; seven message kinds; seeded operation sequences over five clients with conflicting metadata - each on implementation (real RSA through the stand-in, real ciphertexts) and model.",
+    "note": "Trusted: Coq kernel + vm_compute; hand-written models tied to the code by correspondence (exhaustive over the listed finite products in the thorough tier; the quick tier drops the listed slices); stand-in xmlsec1 verifies with the certificate file pysaml2 hands it; certificates are identified with (key, validity window) - Model/CertSelect.v with the key alone (cert n holds key n); what the library does with an EXPIRED KeyInfo certificate in the setting-off fallback is left unspecified (not generated); certificate-chain validation (cert_handler) is off as in the default configuration; want_assertions_or_response_signed off (C02/C04); plain (unencrypted) assertions inside an Advice are not verified by the library at all and are outside the statement.",
     "technique": "machine-checked proof (Coq, induction over metadata lists, assertion lists and operation sequences) + correspondence over generated federations, documents and histories + oracle",
 }
 TRUSTED = ["modelled (as repaired by proposed_fix/C03-1): MetaData.certs/extract_certs, MetadataStore.__getitem__ (first entity with the id), issuer selection, certificate selection and loop of SecurityContext._check_signature, the issuer= argument of every call site, the order of signature checks in correctly_signed_response / parse_assertion / decrypt_assertions and the two retries of Entity._parse_response",
-           "stand-in xmlsec1 (real RSA signatures and ciphertexts; key given on the command line only)"]
+           "stand-in xmlsec1 (real RSA signatures and ciphertexts; key given on the command line only; verifies under the key of the certificate file, no look at its dates)",
+           "modelled: nothing in MetaData.certs / _check_signature / cert_from_instance(ignore_age=True) reads a certificate's validity dates (Model/CertValidity.v)"]
 ASSUMPTIONS = ["symbolic signature: verifies under a certificate iff it holds the signer's key and the content is unmodified"]
-RULE = ("(1) IdP-1 key-descriptor layouts (17, six of them with key descriptors that carry a KeyName / KeyValue and no X509Data) x claimed issuer {idp1, idp2, unknown, absent, prefix-of-idp1, upper-case idp1} x signing key {idp, idp2, other, sp2, sp} x embedded KeyInfo {signer's cert, none} x "
+RULE = ("(1) IdP-1 key-descriptor layouts (29, six of them with key descriptors that carry a KeyName / KeyValue and no X509Data, twelve with expired / not-yet-valid certificates - idp2's certificate expired there too) x claimed issuer {idp1, idp2, unknown, absent, prefix-of-idp1, upper-case idp1} x signing key {idp, idp2, other, sp2, sp} x embedded KeyInfo {signer's cert, none} x "
         "only_use_keys_in_metadata {on, off, unset}; (2) place {plain, encrypted, advice-of-plain, advice-of-encrypted} x outer (issuer, own signature) {idp1, idp2, unknown, idp1 signed, idp2 signed} x "
         "own issuer {idp1, idp2, unknown, absent, idp1 in white space} x key x embedded x clients {layout x setting}; (3) direct check_signature/_check_signature on assertion/response: own issuer (10 spellings) x "
         "issuer= argument (6) x key x embedded {own, none, issuer's real cert} x clients incl. one without metadata; (4) 7 message kinds x issuer x key x embedded x clients; (5) seeded operation sequences + all ordered "
-        "client pairs x site, over 5 long-lived clients (same entity ids, conflicting keys; two objects with equal configuration); non-trivial = every cell")
+        "client pairs x site, over 5 long-lived clients (same entity ids, conflicting keys; two of them with expired / not-yet-valid certificates); validity federations among the clients of (2)-(4); non-trivial = every cell")
 
 KEYS = ["idp", "idp2", "other", "sp2", "sp", "md"]
 KID = {k: i + 1 for i, k in enumerate(KEYS)}
+# certificates: "<key>" (valid 2020-2060), "<key>-exp" (expired 2021), "<key>-fut" (valid from 2055) - the SAME RSA key in
+# another certificate (harness/c03_mint.py).  KID erases the window (Model.CertSelect: cert n holds key n);
+# Model.CertValidity keeps it as an attribute that nothing reads (ccert).
+VARIANTS = {"exp": "Expired", "fut": "NotYetValid"}
+CERTS = list(KEYS) + ["%s-%s" % (k, t) for k in c03_mint.NAMES for t in sorted(VARIANTS)]
+for _c in CERTS:
+    KID[_c] = KID[_c.split("-")[0]]
+
+
+def ckey(c):
+    """the key a certificate holds"""
+    return c.split("-")[0]
+
+
+def cwindow(c):
+    return VARIANTS[c.split("-")[1]] if "-" in c else "Valid"
+
+
+def ccert(c):
+    return "{| c_key := %d; c_valid := %s |}" % (KID[c], cwindow(c))
+
+
+def cert_code(c):
+    """show_cert of Model.CertValidity"""
+    return KID[c] * 10 + ["Valid", "Expired", "NotYetValid"].index(cwindow(c))
 LAYOUTS = {
     "signing": [("signing", ["idp"])],
     "encryption-only": [("encryption", ["idp"])],
@@ -60,7 +87,29 @@ LAYOUTS = {
     "keyname-only": [("signing", [])],
     "enc-keyname+sign": [("encryption", []), ("signing", ["idp"])],
     "sign+enc-keyname+useless-keyname": [("signing", ["idp", "other"]), ("encryption", []), (None, [])],
+    # certificate VALIDITY DATES: a signing certificate in metadata that has expired / is not yet valid is still the
+    # issuer's declared signing key: signatures under its key are accepted, and its presence alone forbids the
+    # embedded-certificate fallback (every embedded certificate in these cases is a currently valid one)
+    "expired": [("signing", ["idp-exp"])],
+    "not-yet-valid": [("signing", ["idp-fut"])],
+    "expired+future": [("signing", ["idp-exp", "idp-fut"])],
+    "expired+renewed": [("signing", ["idp-exp"]), ("signing", ["idp"])],
+    "expired-other+valid": [("signing", ["other-exp"]), ("signing", ["idp"])],
+    "valid+future-other": [("signing", ["idp", "other-fut"])],
+    "useless-expired+enc": [(None, ["idp-exp"]), ("encryption", ["other"])],
+    "expired-other-only": [("signing", ["other-exp"])],
+    "enc-valid+sign-future-other": [("encryption", ["idp"]), ("signing", ["other-fut"])],
+    "enc-expired-only": [("encryption", ["idp-exp"])],
+    "valid+expired-other-descriptor": [("signing", ["idp"]), ("signing", ["other-exp"])],
+    "future-other-first+valid": [("signing", ["other-fut", "idp"])],
 }
+VALIDITY_LAYOUTS = [l for l, kds in LAYOUTS.items() if any("-" in c for _, certs in kds for c in certs)]
+IDP2_EXPIRED = [("signing", ["idp2-exp"]), ("encryption", ["sp2"])]
+
+
+def idp2_layout(lname):
+    """the second IdP of the standard federation: in the validity layouts its only signing certificate has expired too"""
+    return IDP2_EXPIRED if lname in VALIDITY_LAYOUTS else IDP2_LAYOUT
 KEYNAME_LAYOUTS = [l for l, kds in LAYOUTS.items() if any(not certs for _, certs in kds)]
 IDP2_LAYOUT = [("signing", ["idp2"]), ("encryption", ["sp2"])]
 UNKNOWN_ID = "https://unknown.example.org/idp"
@@ -106,12 +155,24 @@ def sp_for(lname, only_md):
         over = {"sp": {"want_response_signed": True}}
         if only_md is not None:
             over["only_use_keys_in_metadata"] = only_md
-        _sps[k] = env.make_sp(idp_md=[idp_md(IDP_ID, LAYOUTS[lname]), idp_md(IDP2_ID, IDP2_LAYOUT)], **over)
+        _sps[k] = env.make_sp(idp_md=[idp_md(IDP_ID, LAYOUTS[lname]), idp_md(IDP2_ID, idp2_layout(lname))], **over)
     return _sps[k]
 
 
 def md_coq(lname):
-    return fed_coq([(IDP_ID, LAYOUTS[lname]), (IDP2_ID, IDP2_LAYOUT)])
+    return fed_coq(std_fed(lname))
+
+
+def fed_vcoq(fed):
+    """the federation for Model.CertValidity (certificates with their validity window)"""
+    def ent(layout):
+        return "[" + clist(layout, lambda kd: "{| vkd_use := %s; vkd_certs := %s |}" % (
+            copt(kd[0], cstr), clist(kd[1], ccert))) + "]"
+    return clist(fed, lambda el: "(%s, %s)" % (cstr(el[0]), ent(el[1])))
+
+
+def md_vcoq(lname):
+    return fed_vcoq(std_fed(lname))
 
 
 def fed_coq(fed):
@@ -138,7 +199,7 @@ def CL(name, fed, only_md=True, wrs=False, was=False):
 
 
 def std_fed(lname):
-    return [(IDP_ID, LAYOUTS[lname]), (IDP2_ID, IDP2_LAYOUT)]
+    return [(IDP_ID, LAYOUTS[lname]), (IDP2_ID, idp2_layout(lname))]
 
 
 _clients = {}
@@ -155,6 +216,10 @@ def client(cl):
     if cl["name"] not in _clients:
         _clients[cl["name"]] = make_client(cl)
     return _clients[cl["name"]]
+
+
+def is_validity_client(cl):
+    return any("-" in c for _, layout in cl["fed"] for _, certs in layout for c in certs)
 
 
 def only_on(cl):
@@ -210,7 +275,7 @@ def effective_issuer(own, arg):
 def signing_certs(fed, name):
     for eid, layout in fed:
         if eid == name:
-            return [c for use, certs in layout if use in ("signing", None) for c in certs]
+            return [ckey(c) for use, certs in layout if use in ("signing", None) for c in certs]
     return None
 
 
@@ -326,6 +391,8 @@ def run(ctx):
     env.tool_inprocess(True)
     _trail.clear()
     _analysed[0] = 0
+    for complaint in c03_mint.check_windows(NOW):      # the expired / not-yet-valid certificates really are, at both clocks
+        ctx.oracle_fail("harness-certificate-window", complaint, None)
     with env.Clock(NOW):
         import time
         for u in (unit_response_level, unit_certs, unit_documents, unit_direct, unit_messages, unit_history):
@@ -341,9 +408,9 @@ def unit_response_level(ctx):
     docs = {}
     for lname, (iname, issuer), key, embed, only_md in itertools.product(
             LAYOUTS, ISSUERS.items(), ["idp", "idp2", "other", "sp2", "sp"], [True, False], [True, False, None]):
-        if ctx.quick and only_md is None and (key not in ("idp", "other") or lname not in ("signing", "none", "enc-only-other")):
+        if ctx.quick and only_md is None and (key not in ("idp", "other") or lname not in ("signing", "none", "enc-only-other", "expired", "expired-other-only")):
             continue
-        if ctx.quick and iname in ("prefix", "upper") and (key not in ("idp", "other") or lname not in ("signing", "none", "two-certs", "useless")):
+        if ctx.quick and iname in ("prefix", "upper") and (key not in ("idp", "other") or lname not in ("signing", "none", "two-certs", "useless", "not-yet-valid")):
             continue
         dk = (issuer, key, embed)
         if dk not in docs:
@@ -359,16 +426,16 @@ def unit_response_level(ctx):
         if accepted and not isinstance(e2e, list) and iname != "absent":
             ctx.oracle_fail("e2e-refuses-verified:%s:%s" % (iname, lname), "signature check passes but the SP refuses the response (%s)" % (e2e,), dict(layout=lname, issuer=iname))
         only = True if only_md is None else only_md
-        coq = "(true, %s, %s, %s, %s, %d)" % (md_coq(lname), copt(issuer, cstr), cbool(only),
-                                              clist([key] if embed else [], lambda c: "%d" % KID[c]), KID[key])
+        coq = "(true, %s, %s, %s, %s, %d)" % (md_vcoq(lname), copt(issuer, cstr), cbool(only),
+                                              clist([key] if embed else [], ccert), KID[key])
         cell = dict(layout=lname, issuer=iname, key=key, embedded=embed, only_md=only_md)
         cases.append(dict(id=n, coq=coq, impl=impl, show=cell))
         n += 1
         ctx.nontriv(tuple(cell.items()))
         ctx.count("accepted" if accepted else "rejected:" + got.name)
         # oracle: the property, from the layout alone
-        layout = LAYOUTS[lname] if iname == "idp1" else IDP2_LAYOUT if iname == "idp2" else None
-        signing = [] if layout is None else [c for use, certs in layout if use in ("signing", None) for c in certs]
+        layout = LAYOUTS[lname] if iname == "idp1" else idp2_layout(lname) if iname == "idp2" else None
+        signing = [] if layout is None else [ckey(c) for use, certs in layout if use in ("signing", None) for c in certs]
         if only:
             want = key in signing
         else:
@@ -382,10 +449,10 @@ def unit_response_level(ctx):
             ctx.oracle_fail("issuer-key-refused:%s:%s" % (iname, lname), "valid signature by the issuer's own signing key %r refused (%s)" % (key, got), cell)
         if n % 300 == 0:
             ctx.sample(dict(cell=cell, outcome=got if not accepted else "accepted", end_to_end=e2e))
-    ctx.correspond("check_signature_cert_selection", "Model.Sigver Model.CertSelect",
-                   "fun c : bool * mdstore * option str * bool * list N * N => match c with (mp, m, i, o, e, s) => "
-                   "match check_signature mp m i o e s with Ok _ => VB true | Err _ => VE (s2l \"rejected\") end end",
-                   "(bool * mdstore * option str * bool * list N * N)", cases, shard=300)
+    ctx.correspond("check_signature_cert_selection", "Model.Sigver Model.CertSelect Model.CertValidity",
+                   "fun c : bool * vmdstore * option str * bool * list cert * N => match c with (mp, m, i, o, e, s) => "
+                   "show_vcheck (vcheck_signature mp m i o e s) end",
+                   "(bool * vmdstore * option str * bool * list cert * N)", cases, shard=300)
 
 
 def unit_certs(ctx):
@@ -396,16 +463,16 @@ def unit_certs(ctx):
         for ent, use in itertools.product([IDP_ID, IDP2_ID, UNKNOWN_ID, IDP_ID[:-1], IDP_ID.upper(), IDP_ID + "/"], ["signing", "encryption"]):
             try:
                 got = sp.metadata.certs(ent, "any", use)
-                b64 = {env.cert_b64(k).replace("\n", ""): KID[k] for k in KEYS}
+                b64 = {env.cert_b64(k).replace("\n", ""): cert_code(k) for k in CERTS}
                 impl = [b64["".join(c.split())] for c in got]
             except KeyError:
                 impl = None
-            cases.append(dict(id=len(cases), coq="(%s, Some %s, %s)" % (md_coq(lname), cstr(ent), cstr(use)), impl=impl,
+            cases.append(dict(id=len(cases), coq="(%s, Some %s, %s)" % (md_vcoq(lname), cstr(ent), cstr(use)), impl=impl,
                               show=dict(layout=lname, entity=ent, use=use)))
             ctx.nontriv(("certs", lname, ent, use))
-    ctx.correspond("metadata_certs", "Model.Sigver Model.CertSelect",
-                   "fun c : mdstore * option str * str => match c with (m, i, u) => show_option (fun l => VL (map (fun n => VZ (Z.of_N n)) l)) (md_certs m i u) end",
-                   "(mdstore * option str * str)", cases)
+    ctx.correspond("metadata_certs", "Model.Sigver Model.CertSelect Model.CertValidity",
+                   "fun c : vmdstore * option str * str => match c with (m, i, u) => show_option (fun l => VL (map show_cert l)) (vmd_certs m i u) end",
+                   "(vmdstore * option str * str)", cases)
 
 
 # ---------------------------------------------------------------------------------------------
@@ -439,7 +506,8 @@ def place_doc(place, outer, okey, inner):
 
 def doc_clients(ctx):
     cls = []
-    for lname, only_md in ([("enc+sign", True), ("none", True), ("none", False), ("sign+keyname", True), ("keyname+sign", False)] if ctx.quick else
+    for lname, only_md in ([("enc+sign", True), ("none", True), ("none", False), ("sign+keyname", True), ("keyname+sign", False),
+                            ("expired+future", False), ("expired-other-only", True)] if ctx.quick else
                            [(l, o) for l in LAYOUTS for o in (True, False)] + [("signing", None)]):
         cls.append(CL("doc:%s:%s" % (lname, only_md), std_fed(lname), only_md=only_md))
     cls.append(CL("doc:signing:was", std_fed("signing"), was=True))
@@ -463,6 +531,8 @@ def unit_documents(ctx):
                 continue        # the embedded certificate is not looked at with the setting on (covered at response level)
             if ctx.quick and (cl["was"] or cl["wrs"]) and (key not in ("idp", "idp2") or iname not in ("idp1", "idp2") or oname == "unknown"):
                 continue
+            if ctx.quick and is_validity_client(cl) and ((oname, okey) not in (("idp2", None), ("idp1", "idp")) or key == "sp"):
+                continue        # the validity federations: two of the five outer elements (all of them in the thorough tier)
             g = dict(op="doc", doc=d)
             remember(cl, g)
             accepted, got = run_op(client(cl), g)
@@ -496,9 +566,11 @@ def direct_clients(ctx):
     cls = [CL("direct:signing:on", std_fed("signing")),
            CL("direct:none:off", std_fed("none"), only_md=False), CL("direct:nometadata:off", [], only_md=False),
            CL("direct:none:on", std_fed("none")),
-           CL("direct:keyname+sign:off", std_fed("keyname+sign"), only_md=False), CL("direct:sign+keyname:on", std_fed("sign+keyname"))]
+           CL("direct:keyname+sign:off", std_fed("keyname+sign"), only_md=False), CL("direct:sign+keyname:on", std_fed("sign+keyname")),
+           CL("direct:expired:off", std_fed("expired"), only_md=False), CL("direct:expired-other-only:on", std_fed("expired-other-only"))]
     if not ctx.quick:
-        cls += [CL("direct:%s:%s" % (l, o), std_fed(l), only_md=o) for l in ("two-descriptors", "enc+sign", "useless", "encryption-only") for o in (True, False)]
+        cls += [CL("direct:%s:%s" % (l, o), std_fed(l), only_md=o) for l in ["two-descriptors", "enc+sign", "useless", "encryption-only"] + VALIDITY_LAYOUTS for o in (True, False)
+                if "direct:%s:%s" % (l, "on" if o else "off") not in [c["name"] for c in cls]]
         cls.append(CL("direct:signing:off", std_fed("signing"), only_md=False))
         cls.append(CL("direct:nometadata:on", []))
     return cls
@@ -548,6 +620,8 @@ def unit_direct(ctx):
                 continue
             if ctx.quick and oname in ("prefix", "upper", "suffix", "idp1-inner-space") and aname not in ("absent", "idp1"):
                 continue
+            if ctx.quick and is_validity_client(cl) and (aname not in ("absent", "idp1", "idp2") or oname in ("idp2-nbsp", "idp1-inner-space", "prefix", "upper", "suffix")):
+                continue
             i += 1
             entries = ["check_signature", "_check_signature"] if not ctx.quick else [["check_signature", "_check_signature"][i % 2]]
             for entry in entries:
@@ -592,7 +666,9 @@ def unit_messages(ctx):
     cases = []
     cls = [CL("msg:signing:on", std_fed("signing")), CL("msg:enc+sign:on", std_fed("enc+sign")), CL("msg:signing:off", std_fed("signing"), only_md=False),
            CL("msg:none:off", std_fed("none"), only_md=False), CL("msg:sign+keyname:off", std_fed("sign+keyname"), only_md=False),
-           CL("msg:useless-keyname+sign+enc:on", std_fed("useless-keyname+sign+enc"))]
+           CL("msg:useless-keyname+sign+enc:on", std_fed("useless-keyname+sign+enc")),
+           CL("msg:not-yet-valid:off", std_fed("not-yet-valid"), only_md=False), CL("msg:expired-other+valid:on", std_fed("expired-other+valid")),
+           CL("msg:expired-other-only:off", std_fed("expired-other-only"), only_md=False)]
     for kind, iname, key, embed in itertools.product(sorted(D.MESSAGES), ["idp1", "idp2", "unknown", "absent", "idp1-ws"], ["idp", "idp2", "other"], [True, None]):
         e = E(SPELL[iname], key, embed=embed)
         for cl in cls:
@@ -629,8 +705,8 @@ def history_clients():
     return [
         CL("h0:std", [(IDP_ID, [("signing", ["idp"])]), (IDP2_ID, [("signing", ["idp2"])])]),
         CL("h1:swapped", [(IDP_ID, [("signing", ["idp2"])]), (IDP2_ID, [("signing", ["idp"])])]),
-        CL("h2:other-off", [(IDP_ID, [("signing", ["other"])]), (IDP2_ID, [])], only_md=False),
-        CL("h3:std-again", [(IDP_ID, [("signing", ["idp"]), ("signing", [])]), (IDP2_ID, [(None, []), ("signing", ["idp2"])])]),
+        CL("h2:other-off", [(IDP_ID, [("signing", ["other-exp"])]), (IDP2_ID, [])], only_md=False),      # expired, setting off
+        CL("h3:std-again", [(IDP_ID, [("signing", ["idp-fut"]), ("signing", [])]), (IDP2_ID, [(None, []), ("signing", ["idp2-exp"])])]),
         CL("h4:only-idp2", [(IDP2_ID, [("signing", ["other"]), ("encryption", ["idp"])])]),
     ]
 
